@@ -5,6 +5,7 @@ import Ivg.Gen.Tie.GradientFields
 import Ivg.Gen.Tie.RendererFields
 import Ivg.Gen.Tie.Code.Clamp
 import Ivg.Gen.Tie.Code.Logger
+import Ivg.Gen.Tie.Code.Retarget
 import Ivg.Obligations
 /-!
 # C15 — gradient paints
@@ -642,4 +643,8 @@ end Ivg.Props.C15
   Ivg.Gen.Tie.makeRange_code_tie,
   Ivg.Gen.Tie.makeRange_code_tie_model,
   -- regenerated code (translator): Gradient.Bounds is the fixed ±10^9 square
-  Ivg.Gen.Tie.gradient_Bounds_code_tie]
+  Ivg.Gen.Tie.gradient_Bounds_code_tie,
+  -- regenerated code (translator): SetRasterizer recomputes the transform from the current viewBox and the new rectangle
+  Ivg.Gen.Tie.rectangle_Empty_code_tie,
+  Ivg.Gen.Tie.renderer_SetRasterizer_code_tie,
+  Ivg.Gen.Tie.renderer_SetRasterizer_code_tie_frame]
